@@ -10,6 +10,10 @@ import (
 	"go/types"
 	"sort"
 	"strings"
+	"bytes"
+	"go/parser"
+	"go/printer"
+	"sync"
 )
 
 type flowKind int
@@ -93,9 +97,9 @@ func (ex *Exec) hasAfterAnchor(s ast.Stmt) bool {
 			continue
 		}
 		if txt == "" {
-			txt = normSpace(ex.nodeSrc(s))
+			txt = stmtKey(ex.nodeSrc(s))
 		}
-		if txt == normSpace(h.Target) || ex.isLoopAnchor(s, h.Target) {
+		if txt == stmtKey(h.Target) || ex.isLoopAnchor(s, h.Target) {
 			return true
 		}
 	}
@@ -115,7 +119,7 @@ func (ex *Exec) runAnchors(st *State, s ast.Stmt, kind string) {
 		if txt == "" {
 			txt = ex.nodeSrc(s)
 		}
-		if normSpace(txt) == normSpace(h.Target) || ex.isLoopAnchor(s, h.Target) {
+		if stmtKey(txt) == stmtKey(h.Target) || ex.isLoopAnchor(s, h.Target) {
 			ex.anchorHit[h] = true
 			ex.hookDepth++
 			ex.runGhost(st, h.Body, ex.U, fmt.Sprintf("%s:%d %s %q", h.File, h.Line, kind, h.Target), h.Props)
@@ -135,6 +139,40 @@ func (ex *Exec) isLoopAnchor(s ast.Stmt, target string) bool {
 		return ex.loopPathOf(s) == strings.TrimSpace(strings.TrimPrefix(t, "loop "))
 	}
 	return false
+}
+
+var canonCache sync.Map
+
+// stmtKey is the text of a statement in a canonical form used to match
+// `before|after "..."` anchors: comments dropped, white space normalised, and
+// the operands of == and != ordered, so that a "yoda" rewrite of a condition
+// does not unbind a contract.
+func stmtKey(src string) string {
+	if v, ok := canonCache.Load(src); ok {
+		return v.(string)
+	}
+	out := normSpace(src)
+	fset := token.NewFileSet()
+	f, err := parser.ParseFile(fset, "", "package p\nfunc _() {\n"+src+"\n}", parser.SkipObjectResolution)
+	if err == nil && len(f.Decls) == 1 {
+		ast.Inspect(f, func(n ast.Node) bool {
+			if be, ok := n.(*ast.BinaryExpr); ok && (be.Op == token.EQL || be.Op == token.NEQ) {
+				if types.ExprString(be.X) > types.ExprString(be.Y) {
+					be.X, be.Y = be.Y, be.X
+				}
+			}
+			return true
+		})
+		var buf bytes.Buffer
+		if printer.Fprint(&buf, fset, f.Decls[0].(*ast.FuncDecl).Body) == nil {
+			out = normSpace(buf.String())
+		}
+	}
+	// layout-independent: no white space at all, no trailing commas
+	out = strings.Join(strings.Fields(out), "")
+	out = strings.ReplaceAll(strings.ReplaceAll(out, ",}", "}"), ",)", ")")
+	canonCache.Store(src, out)
+	return out
 }
 
 func normSpace(s string) string { return strings.Join(strings.Fields(s), " ") }
@@ -1061,17 +1099,17 @@ func (ex *Exec) modified(nodes ...ast.Node) *modSet {
 					visitLHS(l)
 					ms.events["assign:"+exprText(ast.Unparen(l))] = true
 				}
-				ms.events["stmt:"+normSpace(ex.nodeSrc(x))] = true
+				ms.events["stmt:"+stmtKey(ex.nodeSrc(x))] = true
 			case *ast.ExprStmt:
-				ms.events["stmt:"+normSpace(ex.nodeSrc(x))] = true
+				ms.events["stmt:"+stmtKey(ex.nodeSrc(x))] = true
 			case *ast.BranchStmt:
-				ms.events["stmt:"+normSpace(ex.nodeSrc(x))] = true
+				ms.events["stmt:"+stmtKey(ex.nodeSrc(x))] = true
 			case *ast.ReturnStmt:
-				ms.events["stmt:"+normSpace(ex.nodeSrc(x))] = true
+				ms.events["stmt:"+stmtKey(ex.nodeSrc(x))] = true
 			case *ast.IncDecStmt:
 				visitLHS(x.X)
 				ms.events["assign:"+exprText(ast.Unparen(x.X))] = true
-				ms.events["stmt:"+normSpace(ex.nodeSrc(x))] = true
+				ms.events["stmt:"+stmtKey(ex.nodeSrc(x))] = true
 			case *ast.RangeStmt:
 				if x.Key != nil {
 					visitLHS(x.Key)
@@ -1143,7 +1181,7 @@ func (ex *Exec) ghostsWrittenBy(ms *modSet) map[string]bool {
 		case "exit":
 			fire = false
 		case "after", "before":
-			fire = ms.events["stmt:"+normSpace(h.Target)]
+			fire = ms.events["stmt:"+stmtKey(h.Target)]
 		case "assign":
 			fire = ms.events["assign:"+h.Target]
 		default:
